@@ -186,8 +186,11 @@ func c12Build(r *mon.Rand, pos string, v []byte, args [][]byte) (typ auparse.Aud
 		if len(safe) == 0 || isPlaceholder(safe) {
 			safe = []byte("v")
 		}
-		msg = fmt.Sprintf("foo=%s pid=%s bar-baz=%s n_1=0x1f res=1", safe, pid, pid)
-		want["foo"], want["pid"], want["bar-baz"], want["n_1"], want["result"] = string(safe), pid, pid, "0x1f", "success"
+		// a lower-case hex look-alike is NOT the kernel's hex form (that is upper-case): it is a plain value,
+		// also in a position that would be decoded (cwd is decoded for every record type)
+		lower := fmt.Sprintf("%x", pid+"z")
+		msg = fmt.Sprintf("foo=%s pid=%s bar-baz=%s n_1=0x1f cwd=%s res=1", safe, pid, pid, lower)
+		want["foo"], want["pid"], want["bar-baz"], want["n_1"], want["result"], want["cwd"] = string(safe), pid, pid, "0x1f", "success", lower
 		absent = append(absent, "res")
 	}
 	return typ, c12Hdr + msg, want, absent
